@@ -384,7 +384,9 @@ func TestC07FreeRunning(t *testing.T) {
 						if rc != nil && err == nil {
 							// stream in slices so that overwrites / evictions overlap the read
 							var buf bytes.Buffer
-							tmp := make([]byte, 1+op.size)
+							// (at most ~500 slices per stream: 2-byte slices of a 1 MiB blob,
+							// each followed by a sleep, take minutes on a busy machine)
+							tmp := make([]byte, max(1+op.size, int(fs/512)+1))
 							var rerr error
 							for {
 								n, er := rc.Read(tmp)
